@@ -16,6 +16,7 @@
   stated gap of this property — see DESIGN.md.
 -/
 import JV.Proofs.Patch
+import JV.Proofs.PatchUndoD
 namespace JV.Props.C15
 open JV Model Model.Patch Model.Pointer
 
@@ -73,6 +74,66 @@ theorem root_add_logs_replace (ordered : Bool) (d v : JVal) :
     addLike ordered d [] v = (true, v, [.replace [] d]) := by
   simp [addLike, Pointer.get, Pointer.apply]
 
+/-! ### ATOMICITY: if any operation fails, the document is left as it was -/
+
+/-- the `value` members of the patch's operation objects satisfy the representation invariant -/
+def PatchValuesWF : JVal → Prop
+  | .arr ops => ∀ op ∈ ops, OpValWF op
+  | _ => True
+
+theorem wf_of_mem {x : JVal} : ∀ {xs : List JVal}, WFList xs → x ∈ xs → x.WF
+  | [], _, h => by simp at h
+  | y :: ys, hw, h => by
+    rcases List.mem_cons.1 h with e | e
+    · rw [e]; exact hw.1
+    · exact wf_of_mem hw.2 e
+
+theorem patchValuesWF_of_wf {p : JVal} (hp : p.WF) : PatchValuesWF p := by
+  cases p with
+  | arr ops =>
+    intro op hm
+    exact opValWF_of_wf (wf_of_mem (by simpa [JVal.WF] using hp) hm)
+  | _ => trivial
+
+/-- ATOMICITY for `jsoncons::json` (sorted objects), EXACT: whenever `apply_patch` reports an error,
+    the document is identical to the one it was given — for every patch (all six operations, `-`,
+    array shifting, the insert-else-replace fallback, root targets, `move` failing in its second
+    half), under the representation invariant of the type (`WF`: every object sorted by key, hence
+    keys unique) for the document and for the values carried by the patch. -/
+theorem apply_atomic_sorted_values (d p : JVal) (hd : d.WF) (hp : PatchValuesWF p) :
+    (applyPatch false d p).1 ≠ none → (applyPatch false d p).2 = d := by
+  intro h
+  cases p with
+  | arr ops => exact applyLoop_atomic_sorted d ops d [] hp hd rfl h
+  | _ => rfl
+
+theorem apply_atomic_sorted (d p : JVal) (hd : d.WF) (hp : p.WF) :
+    (applyPatch false d p).1 ≠ none → (applyPatch false d p).2 = d :=
+  apply_atomic_sorted_values d p hd (patchValuesWF_of_wf hp)
+
+/-- no operation of the patch is `remove` or `move` (decidable) -/
+def patchNoRemoval : JVal → Bool
+  | .arr ops => ops.all noRemoval
+  | _ => true
+
+/-- ATOMICITY, EXACT, for BOTH object flavours and WITHOUT any invariant on the document or the
+    patch (duplicate keys, unsorted objects allowed), for patches without `remove` / `move`:
+    the undo of add / replace / copy restores the document exactly. -/
+theorem apply_atomic_no_removal (ordered : Bool) (d p : JVal) (hp : patchNoRemoval p = true) :
+    (applyPatch ordered d p).1 ≠ none → (applyPatch ordered d p).2 = d := by
+  intro h
+  cases p with
+  | arr ops =>
+    have hops : ∀ op ∈ ops, noRemoval op = true := by simpa [patchNoRemoval, List.all_eq_true] using hp
+    exact applyLoop_atomic_noRemoval ordered d ops d [] hops rfl h
+  | _ => rfl
+
+/-- after `k` successful operations the undo stack restores the original document (sorted objects) -/
+theorem undo_inverts_op (t operation : JVal) (ht : t.WF) :
+    ∀ s, unwind false (applyOp false t operation).2.1 ((applyOp false t operation).2.2 ++ s) = unwind false t s := by
+  obtain ⟨t2, he, hu⟩ := applyOp_undoes Eq (fun _ => rfl) false t operation (Or.inr (remInv_sorted t ht))
+  subst he; exact hu
+
 /-! ### non-vacuity / regression witnesses (evaluated by the kernel) -/
 
 def docA : JVal := .obj [([97], .int 1)]
@@ -84,5 +145,46 @@ def opFrob : JVal := .obj [(sOp, .str [102, 114, 111, 98]), (sPath, .str [47, 97
 example : applyPatch false docA (.arr [opRemoveA, opAddRoot7, opTestRoot8]) = (some .testFailed, docA) := by decide
 example : applyPatch false docA (.arr [opFrob]) = (some .invalidPatch, docA) := by decide
 example : applyPatch false docA (.arr [opRemoveA, opAddRoot7]) = (none, .int 7) := by decide
+
+/-! non-vacuity of `apply_atomic_sorted`: three operations succeed and modify the document
+    (append through `-`, `move` out of an object into an array, `remove` with shifting), the fourth fails -/
+def doc2 : JVal := .obj [([97], .arr [.int 1, .int 2]), ([98], .obj [([99], .int 3)])]
+def opAddDash : JVal := .obj [(sOp, .str sAdd), (sPath, .str [47, 97, 47, 45]), (sValue, .int 9)]
+def opMoveCA0 : JVal := .obj [(sFrom, .str [47, 98, 47, 99]), (sOp, .str sMove), (sPath, .str [47, 97, 47, 48])]
+def opRemoveA1 : JVal := .obj [(sOp, .str sRemove), (sPath, .str [47, 97, 47, 49])]
+def opReplaceZ : JVal := .obj [(sOp, .str sReplace), (sPath, .str [47, 122]), (sValue, .int 1)]
+def patch3 : JVal := .arr [opAddDash, opMoveCA0, opRemoveA1]
+def patch4 : JVal := .arr [opAddDash, opMoveCA0, opRemoveA1, opReplaceZ]
+
+example : applyPatch false doc2 patch3 = (none, .obj [([97], .arr [.int 3, .int 2, .int 9]), ([98], .obj [])]) := by decide
+example : applyPatch false doc2 patch4 = (some .replaceFailed, doc2) := by decide
+example : doc2.WF ∧ patch4.WF := by
+  simp [doc2, patch4, opAddDash, opMoveCA0, opRemoveA1, opReplaceZ, JVal.WF, WFList, WFMembers, Assoc.Sorted, keyLt,
+    sOp, sPath, sValue, sFrom]
+example : (applyPatch false doc2 patch4).2 = doc2 :=
+  apply_atomic_sorted doc2 patch4
+    (by simp [doc2, JVal.WF, WFList, WFMembers, Assoc.Sorted, keyLt])
+    (by simp [patch4, opAddDash, opMoveCA0, opRemoveA1, opReplaceZ, JVal.WF, WFList, WFMembers, Assoc.Sorted, keyLt,
+          sOp, sPath, sValue, sFrom])
+    (by decide)
+
+/-- the invariant is needed: on an unsorted "sorted-flavour" object the undo of `remove` re-inserts the
+    member at its sorted position, not where it was -/
+example : applyPatch false (.obj [([98], .int 2), ([97], .int 1)])
+    (.arr [.obj [(sOp, .str sRemove), (sPath, .str [47, 98])], opTestRoot8])
+    = (some .testFailed, .obj [([97], .int 1), ([98], .int 2)]) := by decide
+
+/-- insertion-ordered objects (`ojson`): the undo of `remove` re-appends the member LAST, so the document
+    comes back equal only up to member order (DESIGN.md 9.7 "observed, not flagged") -/
+example : applyPatch true (.obj [([97], .int 1), ([98], .int 2)]) (.arr [opRemoveA, opTestRoot8])
+    = (some .testFailed, .obj [([98], .int 2), ([97], .int 1)]) := by decide
+
+/-- non-vacuity of `apply_atomic_no_removal` on an ordered object with a duplicate key -/
+def opCopyAB : JVal := .obj [(sOp, .str sCopy), (sFrom, .str [47, 97]), (sPath, .str [47, 98])]
+def opAddA5 : JVal := .obj [(sOp, .str sAdd), (sPath, .str [47, 97]), (sValue, .int 5)]
+example : patchNoRemoval (.arr [opCopyAB, opAddA5, opAddRoot7, opTestRoot8]) = true := by decide
+example : applyPatch true (.obj [([97], .int 1), ([97], .int 2)]) (.arr [opCopyAB, opAddA5, opAddRoot7]) = (none, .int 7) := by decide
+example : applyPatch true (.obj [([97], .int 1), ([97], .int 2)]) (.arr [opCopyAB, opAddA5, opAddRoot7, opTestRoot8])
+    = (some .testFailed, .obj [([97], .int 1), ([97], .int 2)]) := by decide
 
 end JV.Props.C15
